@@ -137,6 +137,12 @@ PROPS = {
         "race": True,
         "monitor": monitors.c17_codec,
     },
+    "C19": {
+        "level_text": "advertised_id, foreign_id_refused, advertised_address, undetermined_refused and the IPv4/IPv6/DNS round trip join_split / host_port_roundtrip (SplitHostPort(JoinHostPort(h,p)) = (h,p) for every bracket-free host and colon-free port, by induction over the strings) are Lean theorems about normalizeNodeURI on structured overrides; the real normalizeNodeURI is run on generated override strings (other ids, empty user, user:password, missing/unspecified hosts, IPv6 literals and zones, ports, paths, queries, other schemes, unparsable) x source addresses, its result parsed back with ethnode.ParseNodeURI and net.SplitHostPort; registration through the real connect with a generated RemoteAddr is part of the pool streams.",
+        "level_note": "Theorems are about Model/NodeURI.lean; net/url parsing is not re-implemented: the model receives what url.Parse yields for the override (hostname, port, user), observed by the harness. Trusted: net/url, net.SplitHostPort (modelled as splitHostPortL for the round-trip theorem and compared on every case).",
+        "lean_modules": ["Vipnode.Props.C19"],
+        "streams": [{"name": "uri", "component": "uri", "cases": {"quick": 200, "thorough": 3000}}] + pool_streams(80, 800, gen="pool-peers", prefix="connect") + pool_streams(60, 600),
+    },
     "C12": {
         "level_text": "Contract clauses (unregistered = error, balances follow the wallet, trial migrated exactly once and shared, active-host query contract, statistics = true counts, ledger effect of every operation, well-formedness of every reachable store) are Lean theorems about the executable reference model of the documented store contract, for all states and arguments; both drivers are compared with that model op by op on generated histories, so a driver that deviates from the other deviates from the model.",
         "level_note": "Theorems are about Model/Store.lean; its tie to memory.go/badger.go is differential (sampled). Trusted: badger transaction atomicity, gob round-trip, the harness's clock bracketing.",
